@@ -14,7 +14,8 @@ import vlib
 
 LEVEL_TEXT = ('Lean 4 theorems about the model of propagate_fft, for all fields, samplings, oversampling factors, shapes and scratch '
               'buffers: at C/R and isotropic dx·du (or per-axis sampling whose axes lead to the same wavelength, e.g. non-square grids 20x40), every sample of Wavefront.field of propagate_fft equals the sample of Wavefront.field of '
-              'the propagate_dft model (C02, proved against the Fraunhofer sum) at the reported wavelength, for every accepted output shape, '
+              'the propagate_dft model (C02, proved against the Fraunhofer sum) at the reported wavelength, for every accepted output shape (fft_eq_fraunhofer_sum states it directly as the defining double sum '
+              'with alpha = dx·du/(λ_reported z os)), '
               'with or without scratch (centred FFT = unitary dft2 with alpha = 1/S for both parities by the NumPy contracts; reported '
               'wavelength makes alpha = 1/S; dft2 of the padded grid = sum of per-field dft2 with offsets); the result with a sufficient '
               'scratch of any size/content equals the result without; a buffer of exactly fft_shape is accepted, smaller ones, shapes with (refuses_larger_shape_real / accepted_shape_fits_real at C/R) '
@@ -25,7 +26,7 @@ LEVEL_TEXT = ('Lean 4 theorems about the model of propagate_fft, for all fields,
               'wavelengths, both shape branches and guards, the scratch guard, the metadata hand-over, scratch_shape\'s call, the pad index block, and the _fft2 '
               'composition (which shift is applied inside/outside and the norm= keyword are read from the source: Gen.fft2InnerIdx/fft2OuterIdx/fft2Norm, '
               'fft2_composition proves they are ifftshift / fftshift / ortho). propagateFft_scale_covariant: scaling every length by k>0 leaves the whole outcome '
-              '(accepted field data and extents, or the same refusal) unchanged and multiplies the reported wavelength by k (for 0 < k; min(ka, kb) = k min(a, b) is proved, fft_scale_invariant_real / propagateFft_scale_covariant_real carry no other hypothesis). The oracle also checks that a '
+              '(accepted field data and extents, or the same refusal) unchanged and multiplies the reported wavelength by k, and scratch_shape is unit independent (scratch_shape_scale_invariant_real) (for 0 < k; min(ka, kb) = k min(a, b) is proved, fft_scale_invariant_real / propagateFft_scale_covariant_real carry no other hypothesis). The oracle also checks that a '
               'caller\'s scratch buffer is untouched outside the fft_shape corner after the call.')
 LEVEL_NOTE = ('Partial: np.fft.fft2/fftshift/ifftshift and np.round/np.min/np.max enter through their documented contracts (not verified; which of them _fft2 composes and in which order IS regenerated; the real-number round-half-even and min are the instances the theorems are proved at); oversample is an integer in the model and theorems — float '
               'oversample is exercised by the oracle only (known finding KF-C09-float-oversample-explicit-shape); anisotropic dx·du whose per-axis wavelengths DIFFER is excluded by '
